@@ -920,6 +920,8 @@ class Interp(Engine):
                     rT = rT(self, env)
                 res = self.fresh(rT, "%s.result" % c.key) if rT is not None else NONE
                 env["result"] = res
+                for gname, gT in c.ghost_results.items():
+                    env[gname] = self.fresh(gT, "%s.%s" % (c.key, gname))
                 for cl in c.ensures:
                     self.assume(self.truth(self.eval_clause(cl)))
                 return res
@@ -1201,6 +1203,15 @@ class Interp(Engine):
             self.sh.dropped = getattr(self.sh, "dropped", set())
             self.sh.dropped.add((node.lineno, type(node).__name__))
             return
+        if self.contract.hints and self.call_depth == 0:
+            try:
+                first = ast.unparse(node).splitlines()[0].strip()
+            except Exception:
+                first = ""
+            for key, clauses in self.contract.hints.items():
+                if key.startswith("before:") and first.startswith(key[7:].strip()):
+                    for i, cl in enumerate(clauses):
+                        self.prove(self.eval_clause(cl), "hint", "%s[%d]" % (key, i), node.lineno, assume_after=True)
         m(node)
         hook = self.contract.ghost_after.get(getattr(node, "lineno", -1)) if self.call_depth == 0 else None
         if hook is not None:
@@ -2185,6 +2196,7 @@ def _sorted_axiom(self, st):
         self.prove(pre_sorted, "sorted_insertion", "sorted(): all but the last element are already in order", self.cur_line)
         p = z3.Int(self.fresh_name("ins"))
         self.assume(z3.And(p >= 0, p <= n - 1))
+        self.frames[0].env["_ghost_ins"] = VInt(p)
         self.assume(z3.ForAll([j], z3.Implies(z3.And(j >= 0, j < p), z3.And([z3.Select(b, j) == z3.Select(a, j) for a, b in zip(st[2], arrs)]))))
         self.assume(z3.And([z3.Select(b, p) == z3.Select(a, n - 1) for a, b in zip(st[2], arrs)]))
         self.assume(z3.ForAll([j], z3.Implies(z3.And(j > p, j < n), z3.And([z3.Select(b, j) == z3.Select(a, j - 1) for a, b in zip(st[2], arrs)]))))
